@@ -344,23 +344,23 @@ class PreferenceProfile:
         Returns:
             PreferenceProfile: A PreferenceProfile object with condensed ballot list.
         """
-        weight_accumulator = {}
+        weight_accumulator: dict = {}
 
-        # weightless allows for id of ballots with matching ranking/scores
+        # key on the ballot content (ranking and non-zero scores) so that ballots are merged
+        # exactly when both agree, independently of the order of the ballots
         for ballot in self.ballots:
-            weightless_ballot = (
-                Ballot(ranking=ballot.ranking, weight=Fraction(0), scores=ballot.scores)
-                if ballot.scores
-                else Ballot(ranking=ballot.ranking, weight=Fraction(0))
+            content = (
+                ballot.ranking,
+                frozenset(ballot.scores.items()) if ballot.scores else None,
             )
-            if weightless_ballot not in weight_accumulator:
-                weight_accumulator[weightless_ballot] = Fraction(0)
+            if content not in weight_accumulator:
+                weight_accumulator[content] = [ballot, Fraction(0)]
 
-            weight_accumulator[weightless_ballot] += ballot.weight
+            weight_accumulator[content][1] += ballot.weight
 
         new_ballot_list = [Ballot()] * len(weight_accumulator)
         i = 0
-        for ballot, weight in weight_accumulator.items():
+        for ballot, weight in weight_accumulator.values():
             if ballot.scores:
                 new_ballot_list[i] = Ballot(
                     ranking=ballot.ranking, scores=ballot.scores, weight=weight
@@ -380,13 +380,17 @@ class PreferenceProfile:
             return False
         pp_1 = self.condense_ballots()
         pp_2 = other.condense_ballots()
-        for b in pp_1.ballots:
-            if b not in pp_2.ballots:
-                return False
-        for b in pp_2.ballots:
-            if b not in pp_1.ballots:
-                return False
-        return True
+
+        def content_weights(pp):
+            return {
+                (
+                    b.ranking,
+                    frozenset(b.scores.items()) if b.scores else None,
+                ): b.weight
+                for b in pp.ballots
+            }
+
+        return content_weights(pp_1) == content_weights(pp_2)
 
     def _sum_row(self, df: pd.DataFrame) -> pd.DataFrame:
         """
